@@ -291,3 +291,58 @@ pub fn c10n_twin_expects_leak() {
 	drop(r);
 	ledger_balanced(2);
 }
+
+// ---- heap blocks (the ledger sees element constructions and drops, not allocations): with counting allocator stubs, a decode
+// that FAILS leaves no live heap block behind, and one that succeeds leaves none once its value is dropped
+fn no_block_left<T: Decode, const L: usize>() {
+	let bytes: [u8; L] = kani::any();
+	let len: usize = kani::any();
+	kani::assume(len <= L);
+	let r = T::decode(&mut &bytes[..len]);
+	if r.is_err() {
+		assert!(crate::stubs::live::live() == 0, "a failed decode left a heap block allocated (leak)");
+	}
+	kani::cover!(r.is_err() && crate::stubs::live::ever() > 0, "reach: failed after allocating");
+	kani::cover!(r.is_ok(), "reach: accepted");
+	drop(r);
+	assert!(crate::stubs::live::live() == 0, "dropping the decoded value does not release every heap block");
+}
+fn no_block_left_cnt<T: Decode, const L: usize>(c: u32) {
+	let bytes: [u8; L] = kani::any();
+	let len: usize = kani::any();
+	kani::assume(len <= L);
+	let r = T::decode(&mut Pre::count32(c, &bytes[..len]));
+	if r.is_err() {
+		assert!(crate::stubs::live::live() == 0, "a failed decode left a heap block allocated (leak)");
+	}
+	kani::cover!(r.is_err() && crate::stubs::live::ever() > 0, "reach: failed after allocating");
+	drop(r);
+	assert!(crate::stubs::live::live() == 0, "dropping the decoded value does not release every heap block");
+}
+crate::with_live_count!(#[kani::unwind(6)] pub fn c10q_blocks_vec_box_2() { no_block_left_cnt::<Vec<Box<bool>>, 2>(2) });
+crate::with_live_count!(#[kani::unwind(6)] pub fn c10q_blocks_list_opt_2() { no_block_left_cnt::<alloc::collections::LinkedList<Option<bool>>, 3>(2) });
+crate::with_live_count!(#[kani::unwind(6)] pub fn c10t_blocks_deque_rc_2() { no_block_left_cnt::<alloc::collections::VecDeque<alloc::rc::Rc<bool>>, 2>(2) });
+crate::with_live_count!(#[kani::unwind(6)] pub fn c10t_blocks_vec_vec() { no_block_left_cnt::<Vec<(u8, Box<bool>)>, 4>(2) });
+crate::with_live_count!(#[kani::unwind(6)] pub fn c10q_blocks_rc_arr() { no_block_left::<alloc::rc::Rc<[u16; 2]>, 4>() });
+crate::with_live_count!(#[kani::unwind(6)] pub fn c10q_blocks_arc_opt() { no_block_left::<alloc::sync::Arc<(u8, Option<u16>)>, 4>() });
+crate::with_live_count!(#[kani::unwind(6)] pub fn c10q_blocks_box_tuple() { no_block_left::<(Box<u8>, Box<Option<bool>>), 3>() });
+crate::with_live_count!(#[kani::unwind(6)] pub fn c10q_blocks_rc_box() { no_block_left::<alloc::rc::Rc<Box<bool>>, 2>() });
+crate::with_live_count!(#[kani::unwind(6)] pub fn c10t_blocks_arr_of_box() { no_block_left::<[Box<bool>; 3], 3>() });
+crate::with_live_count!(#[kani::unwind(6)] pub fn c10t_blocks_arc_arc() { no_block_left::<alloc::sync::Arc<alloc::sync::Arc<bool>>, 2>() });
+/// self-test: the counter sees a leak (must FAIL)
+crate::with_live_count!(#[kani::unwind(4)] pub fn c10n_selftest_leak_seen() {
+	let b = Box::new(7u32);
+	core::mem::forget(b);
+	assert!(crate::stubs::live::live() == 0);
+});
+/// self-test: allocate + drop is balanced under the counting stubs
+crate::with_live_count!(#[kani::unwind(4)] pub fn c10q_selftest_balanced() {
+	let b = Box::new(7u32);
+	assert!(crate::stubs::live::live() == 1, "selftest: allocation not counted");
+	drop(b);
+	assert!(crate::stubs::live::live() == 0, "selftest: deallocation not counted");
+	let r = alloc::rc::Rc::new(5u16);
+	assert!(crate::stubs::live::live() == 1, "selftest: rc allocation not counted");
+	drop(r);
+	assert!(crate::stubs::live::live() == 0, "selftest: rc deallocation not counted");
+});
